@@ -4,6 +4,7 @@ import (
 	"context"
 	"encoding/binary"
 	"fmt"
+	"github.com/cloudwego/dynamicgo/thrift/base"
 	"runtime"
 	"strings"
 	"time"
@@ -665,6 +666,49 @@ func runC06(c *h.Ctx) {
 			}
 			cs.Cover("long_proto")
 		}
+	})
+
+	// ---- responses carrying a thrift base: with EnableThriftBase the BaseResp struct is decoded into the object the
+	// caller put into the context (generated FastRead code); hostile lengths and counts inside it
+	var baseFn *thrift.FunctionDescriptor
+	c.Run("thrift-base", c.N(1200, 40000), func(cs *h.Case) {
+		if baseFn == nil {
+			o := thrift.Options{EnableThriftBase: true}
+			svc, err := o.NewDescritorFromContent(context.Background(), "main.thrift", c03BaseIDL, map[string]string{"main.thrift": c03BaseIDL, "base.thrift": gen.TBaseIDL}, false)
+			if err != nil {
+				cs.Viol("robust:parse-idl", "err", err)
+				return
+			}
+			baseFn, _ = svc.LookupFunctionByMethod("M")
+		}
+		respDesc := baseFn.Response().Struct().FieldById(0).Type()
+		extra := &tref.Val{T: tref.MAP, KT: tref.STRING, ET: tref.STRING}
+		for k := cs.R.Intn(4); k > 0; k-- {
+			extra.K = append(extra.K, tref.Str(fmt.Sprintf("k%d", k)))
+			extra.L = append(extra.L, tref.Str(string(gen.GenStr(cs.R, gen.ValCfg{PlainStr: true}))))
+		}
+		br := tref.Struct(tref.Field{ID: 1, V: tref.Str(string(gen.GenStr(cs.R, gen.ValCfg{PlainStr: true})))}, tref.Field{ID: 2, V: tref.Int32(int32(cs.R.Intn(1000)))}, tref.Field{ID: 3, V: extra})
+		v := tref.Struct(tref.Field{ID: 1, V: tref.Str("msg")}, tref.Field{ID: 255, V: br}, tref.Field{ID: 2, V: tref.Int32(7)})
+		b := tref.Encode(v)
+		var muts []c06Mut
+		muts = append(muts, thriftMuts(cs.R, b, v, 6)...)
+		muts = append(muts, genericMuts(cs.R, b, 2, "thrift")...)
+		if cs.I%20 == 0 {
+			for i := 0; i < len(b); i++ {
+				muts = append(muts, c06Mut{"thrift-truncate-all", append([]byte{}, b[:i]...)})
+			}
+		}
+		t := c06Target{"t2j.Do+thrift-base", func(in []byte) {
+			ctx := context.WithValue(context.Background(), conv.CtxKeyThriftRespBase, base.NewBaseResp())
+			cv := t2j.NewBinaryConv(conv.Options{EnableThriftBase: true})
+			cv.Do(ctx, respDesc, in)
+		}}
+		for _, m := range muts {
+			cs.Info("mutation", m.class)
+			c06Call(cs, t, m.b)
+			cs.Cover("mut_base_" + m.class)
+		}
+		cs.Distinct(fmt.Sprintf("tb-%d-%d", len(b)/8, len(extra.K)))
 	})
 
 	// ---- Protobuf messages
